@@ -669,6 +669,18 @@ def run_c05(req):
     return {"obs": obs, "stats": stats, "known": T.known[:50], "known_count": len(T.known)}
 
 
+RETURNS = [None]
+
+
+class ReturnsHostile:
+    pass
+
+
+@unwrap_stackitem.register(ReturnsHostile)
+def _unwrap_returns_hostile(it):
+    return RETURNS[0]
+
+
 def run_objects(req):
     """extract(o) for non-stack objects."""
     obs = []
@@ -748,6 +760,50 @@ def run_objects(req):
             st.as_stdlib_summary(show_contexts=True)
         except BaseException as ex:
             obs.append({"kind": "format_raised", "obj": str(type(o)), "exc": repr(ex)[:200]})
+    # the same objects where a program may well have them: as the `self` / `cls` argument of a suspended function (the
+    # frame's class name is looked up through it), as the value a hook hands back
+    def held_as_self(self):
+        yield
+
+    def held_as_cls(cls):
+        yield
+
+    class Returns:
+        def __init__(self, value):
+            self.value = value
+
+    for o in hostile:
+        for fn in (held_as_self, held_as_cls):
+            n += 1
+            g = fn(o)
+            next(g)
+            try:
+                st = extract(g)
+                if [f.pyframe for f in st.frames] != [g.gi_frame] or st.error is not None:
+                    obs.append({"kind": "hostile_argument", "obj": type(o).__name__, "held": fn.__name__,
+                                "frames": len(st.frames), "error": repr(st.error)[:200]})
+                str(st)
+                st.format(ascii_only=True, show_hidden_frames=True)
+                st.format_flat(show_contexts=True)
+                st.as_stdlib_summary(show_contexts=True)
+            except BaseException as ex:
+                obs.append({"kind": "format_raised", "obj": type(o).__name__, "held": fn.__name__, "exc": repr(ex)[:200]})
+            finally:
+                g.close()
+        # handed back by an unwrap_stackitem hook: extract() still returns a Stack (whatever it makes of the value)
+        n += 1
+        RETURNS[0] = o
+        try:
+            st = extract(ReturnsHostile())
+            if type(st) is not Stack:
+                obs.append({"kind": "not_a_stack", "obj": type(o).__name__})
+            str(st)
+            st.format_flat()
+        except BaseException as ex:
+            obs.append({"kind": "extract_raised", "obj": type(o).__name__, "where": "value returned by an unwrap_stackitem hook",
+                        "exc": repr(ex)[:200]})
+        finally:
+            RETURNS[0] = None
     for v in req.get("values", []):
         objs.append(v)
         objs.append(tuple(v) if isinstance(v, list) else v)
